@@ -515,7 +515,8 @@ namespace xsimd
             batch_type z = batch_type(1.) - ex * detail::erf_kernel<batch_type>::erfc3(x);
             z = select(self < batch_type(0.), -z, z);
 #ifndef XSIMD_NO_INFINITIES
-            z = select(xsimd::isinf(self), sign(self), z);
+            // erf(|x| > 6) rounds to +-1; beyond ~1e154 the kernel evaluates 0 * (inf / inf)
+            z = select(x > batch_type(6.), sign(self), z);
 #endif
             return select(test2, r1, z);
         }
@@ -576,7 +577,8 @@ namespace xsimd
             batch_type z = ex * detail::erf_kernel<batch_type>::erfc3(x);
             r1 = select(test2, r1, z);
 #ifndef XSIMD_NO_INFINITIES
-            r1 = select(x == constants::infinity<batch_type>(), batch_type(0.), r1);
+            // erfc(x > 27) underflows; beyond ~1e154 the kernel evaluates 0 * (inf / inf)
+            r1 = select(x > batch_type(27.), batch_type(0.), r1);
 #endif
             return select(test0, batch_type(2.) - r1, r1);
         }
